@@ -12,7 +12,7 @@ TIER="${VERIF_TIER:-quick}"
 WT="$(mktemp -d "${TMPDIR:-/tmp}/visim-mut.XXXXXX")"
 cleanup() { git -C /repo worktree remove --force "$WT/repo" >/dev/null 2>&1; rm -rf "$WT"; }
 trap cleanup EXIT
-git -C /repo worktree add --detach "$WT/repo" HEAD -q || exit 2
+git -C /repo worktree add --detach "$WT/repo" "${MUTANT_BASE:-HEAD}" -q || exit 2
 if ! git -C "$WT/repo" apply "$PATCH"; then echo "PATCH DOES NOT APPLY: $PATCH"; exit 2; fi
 export GOFLAGS=-mod=mod GOPROXY=off GOSUMDB=off GOTOOLCHAIN=local
 if [ $SUITE -eq 1 ]; then
